@@ -442,12 +442,20 @@ fn skfload(a: &[String]) {
 fn skfdamage(a: &[String]) {
     let data = std::fs::read(&a[0]).unwrap();
     let mode = a[1].as_str();
-    let start: usize = a[2].parse().unwrap();
-    let end: usize = a[3].parse().unwrap();
+    // either a range `<start> <end>` or `list <file with one index per line>`
+    let (indices, start, end): (Vec<usize>, usize, usize) = if a[2] == "list" {
+        let v: Vec<usize> = std::fs::read_to_string(&a[3]).unwrap().lines().filter(|l| !l.is_empty()).map(|l| l.parse().unwrap()).collect();
+        let n = v.len();
+        (v, 0, n)
+    } else {
+        let s: usize = a[2].parse().unwrap();
+        let e: usize = a[3].parse().unwrap();
+        ((s..e).collect(), s, e)
+    };
     let scratch = &a[4];
     let original = strip_meta(&load_like_cli(&a[0]).expect("original must load").1);
     let (mut rejected, mut same, mut diff) = (0u64, 0u64, 0u64);
-    for i in start..end {
+    for i in indices {
         let damaged: Vec<u8> = match mode {
             "trunc" => data[..i].to_vec(),
             "flip" => {
